@@ -44,10 +44,11 @@ type State struct {
 	ac     string // allocation counter
 	defers []deferEntry
 	held   map[string]string // lock ghost: key -> Bool term
+	mapVer string            // version of all map contents (bumped by map updates and unknown calls)
 }
 
 func (s *State) clone() *State {
-	n := &State{pc: s.pc, epoch: s.epoch, ac: s.ac}
+	n := &State{pc: s.pc, epoch: s.epoch, ac: s.ac, mapVer: s.mapVer}
 	n.cells = make(map[*ssa.Alloc]Val, len(s.cells))
 	for k, v := range s.cells {
 		n.cells[k] = v
@@ -144,6 +145,7 @@ type Gen struct {
 	calleeUse map[*CalleeSpec]int
 	assertUse map[*Clause]int
 	setAtUse  map[*SetClause]int
+	freeVarNames map[string]bool
 	specFacts []string
 	inQuant   int
 	incoming map[*ssa.BasicBlock][]edge
@@ -320,6 +322,7 @@ func (g *Gen) reset() {
 	g.calleeUse = map[*CalleeSpec]int{}
 	g.assertUse = map[*Clause]int{}
 	g.setAtUse = map[*SetClause]int{}
+	g.freeVarNames = map[string]bool{}
 	g.trustedUsed = map[string]bool{}
 }
 
@@ -523,6 +526,7 @@ func (g *Gen) execAll() {
 	st := &State{pc: "true", cells: map[*ssa.Alloc]Val{}, heap: map[string]string{}, epoch: "0", ghosts: map[string]Val{}, held: map[string]string{}}
 	st.ac = g.fresh("ac", "Int")
 	g.emit("(assert (< 0 " + st.ac + "))")
+	st.mapVer = "0"
 	g.curBlock = nil
 	// parameters
 	g.paramVals = map[string]Val{}
@@ -552,6 +556,7 @@ func (g *Gen) execAll() {
 		g.regs[fv] = v
 		// a free variable is a pointer to the captured variable
 		g.paramVals[fv.Name()] = v
+		g.freeVarNames[fv.Name()] = true
 		g.assume(st, inv)
 	}
 	// ghosts
@@ -670,6 +675,7 @@ func (g *Gen) inlineCall(st *State, fn *ssa.Function, args []Val, binds []Val, r
 		if i < len(binds) {
 			g.regs[fv] = binds[i]
 			g.paramVals[fv.Name()] = binds[i]
+			g.freeVarNames[fv.Name()] = true
 		}
 	}
 	var rets []inlineRet
@@ -820,6 +826,11 @@ func (g *Gen) join(b *ssa.BasicBlock, ins []edge) *State {
 			terms = append(terms, e.st.ac)
 		}
 		res.ac = g.mergeTerms("ac", "Int", terms, conds)
+		var mv []string
+		for _, e := range ins {
+			mv = append(mv, e.st.mapVer)
+		}
+		res.mapVer = g.mergeTerms("mapver", "Int", mv, conds)
 	}
 	// cells present in all preds
 	res.cells = map[*ssa.Alloc]Val{}
@@ -1105,6 +1116,7 @@ func (g *Gen) loopPos(li *loopInfo) token.Pos {
 
 func (g *Gen) havocLoop(li *loopInfo, base *State) *State {
 	st := base
+	st.mapVer = g.fresh("mapver", "Int")
 	li.headHeld = map[string]string{}
 	for k, v := range st.held {
 		li.headHeld[k] = v
